@@ -74,11 +74,12 @@ theorem parseL_cache_le (M : Machine σ ε) (limit : Nat) (hl : 0 < limit) (st :
     unfold implParse at h
     split at h
     · simp at h; obtain ⟨_, _, e⟩ := h; subst e; omega
-    · have := loop_cache_le M _ _ _ _ _ _ _ _ _ h
+    · rename_i hd
+      have := loop_cache_le M _ _ _ _ _ _ _ _ _ h
       simp at this
       by_cases he : cache = []
       · subst he; simp at this; omega
-      · have : ¬ (cache.length + data.length > limit) := fun hgt => hn ⟨he, hl, hgt⟩
+      · have : ¬ (cache.length + data.length > limit) := fun hgt => hn ⟨hd, he, hl, hgt⟩
         omega
 
 /-- **C08 retained bound, trace level, for the function the driver runs**: along every chain of `Parse` calls from an
